@@ -92,6 +92,10 @@ impl<'a> TreeGen<'a> {
             }
             e.attrs.push(("class".into(), v));
         }
+        // an anchor's name is not an id: #x must not select <a name=x>
+        if e.tag == "a" && self.rng.chance(1, 3) {
+            e.attrs.push(("name".into(), self.rng.pick(&IDS).to_string()));
+        }
         if self.rng.chance(1, 4) {
             e.attrs.push(("id".into(), self.rng.pick(&IDS).to_string()));
         }
@@ -392,6 +396,31 @@ fn run_case(seed: u64, idx: u64, tier: Tier, out: &mut CaseOut) {
                 return;
             }
         }
+        return;
+    }
+    if rng.chance(1, 40) {
+        // a long chain of wrappers between an ancestor and the subject: the descendant
+        // combinator has no depth limit
+        out.inc("docs_deep_chain");
+        let mut tok = Tokens::new();
+        let depth = *rng.pick(&[100usize, 300, 600]);
+        let mut html = format!("<div class=\"c0\" id=\"i0\">{} ", tok.unique(&mut rng, &p));
+        for k in 0..depth {
+            html.push_str(if k % 2 == 0 { "<div>" } else { "<span>" });
+        }
+        let leaf = tok.unique(&mut rng, &p);
+        html.push_str(&format!("<b class=\"c1\">{}</b>", leaf));
+        let input = html.into_bytes();
+        let dom = odom::parse(&input);
+        let sels = [
+            Selector { first: Compound(vec![Simple::Class("c0".into())]), rest: vec![(Comb::Desc, Compound(vec![Simple::Tag("b".into())]))] },
+            Selector { first: Compound(vec![Simple::Id("i0".into())]), rest: vec![(Comb::Desc, Compound(vec![Simple::Class("c1".into())]))] },
+            Selector { first: Compound(vec![Simple::Tag("div".into()), Simple::Class("c0".into())]), rest: vec![(Comb::Desc, Compound(vec![Simple::Tag("span".into())])), (Comb::Child, Compound(vec![Simple::Tag("b".into())]))] },
+        ];
+        let sel = rng.pick(&sels).clone();
+        let css = format!("{} {{ color: #010203 }}", fmt_selector(&sel, &mut CssStyle::canonical()));
+        let _ = leaf;
+        check_selector(out, &dom, &input, &[sel], &css);
         return;
     }
     let misnested = rng.chance(1, 8);
